@@ -317,6 +317,18 @@ def sequential_history(rng, flav, nreq, frag="one", opts="app=sync"):
     return ev, reqs
 
 
+def early_bytes(rng, ev, p=0.5):
+    """mark reads whose connection has more bytes coming: by the time such a read completes the next bytes have arrived
+    too, so the library's next read() finds them at once (asio tries a read when it is started; OpenSSL has them
+    decrypted already) and the receive buffer is written before that read's completion is delivered"""
+    out = list(ev)
+    for i, e in enumerate(out):
+        m = re.match(r"R(\d+):[0-9a-f]+$", e)
+        if m and rng.random() < p and any(x.startswith("R%s:" % m.group(1)) for x in out[i + 1:]):
+            out[i] = e + "+"
+    return out
+
+
 def perturb(rng, ev, flav):
     """insert a fault or a teardown action at a random position"""
     ev = list(ev)
@@ -426,6 +438,37 @@ def special_histories(rng, flav):
             for rq in (a, second, third):
                 ev += ["R1:" + hexs(rq.bytes()), "W1"]
             H.append(("head then other", "app=sync", ev + ["E1:eof"] + tl, [a, second, third]))
+    # a HEAD request that carries a body, the body arriving with the head / in a later read / after a 100 Continue:
+    # still a HEAD when it completes (no response body, translated for the application when xlate is on)
+    for ov in (1, 2):
+        for xl in (0, 1):
+            for how in ("together", "late", "expect", "bytewise-body"):
+                a = Req(b"HEAD", 200, 7, ov, body=b"hello", expect=(how == "expect"))
+                b_ = Req(b"GET", 200, 7, ov)
+                ev = ["A"] + hs
+                if how == "together":
+                    ev += ["R1:" + hexs(a.bytes()), "W1"]
+                elif how == "late":
+                    ev += ["R1:" + hexs(a.head()), "R1:" + hexs(a.payload()), "W1"]
+                elif how == "expect":
+                    ev += ["R1:" + hexs(a.head()), "W1", "R1:" + hexs(a.payload()), "W1"]
+                else:
+                    ev += ["R1:" + hexs(a.head() + a.payload()[:1])] + ["R1:" + hexs(a.payload()[k:k + 1]) for k in range(1, len(a.payload()))] + ["W1"]
+                ev += ["R1:" + hexs(b_.bytes()), "W1"]
+                H.append(("head with body " + how, "app=sync,xlate=%d" % xl, ev + ["E1:eof"] + tl, [a, b_]))
+    # the application answers on its own (its request timer fires: 408) while a request has arrived only in part - at
+    # every prefix of the head - and the rest of the request arrives afterwards
+    full = Req().bytes()
+    for k in range(0, len(full) + 1):
+        ev = ["A"] + hs + (["R1:" + hexs(full[:k])] if k else []) + ["P1", "W1"] + (["R1:" + hexs(full[k:]), "W1"] if k < len(full) else [])
+        H.append(("unsolicited response at a stall point", "app=sync", ev + ["E1:eof"] + tl, None))
+    # the application disconnects while a streamed (chunked) response is under way: before the head has been written,
+    # and after each of its chunks - the write in flight completes, nothing further is started, then the shutdown
+    for pos in range(0, 5):
+        rq = Req(b"GET", 200, 3, 3)
+        ws = ["W1"] * 4
+        ev = ["A"] + hs + ["R1:" + hexs(rq.bytes())] + ws[:pos] + ["D1"] + ws[pos:] + ["W1"]
+        H.append(("disconnect during a streamed response", "app=sync", ev + tl, None))
     # consecutive Expect requests on one connection, with and without a chunk handler; an Expect request that turns invalid
     for chunkh in (0, 1):
         for chunked in (False, True):
